@@ -125,7 +125,7 @@ fn build_tasks(quick: bool) -> Vec<Task> {
     let lanes_q = [1usize];
     let lanes_t = [1usize, 2];
     let kmaxs = [2usize, 3, 4];
-    // quick: every reduction kind is present (base, binomial 2/4/8, quintic); the two
+    // quick: every (field, reduction kind, degree) family is present (base, binomial 2/4/5/8, quintic); the two
     // families the prover ships by default (BabyBear D4, KoalaBear quintic) and the base
     // field get both lane counts and all packing factors.
     macro_rules! fam {
@@ -140,20 +140,20 @@ fn build_tasks(quick: bool) -> Vec<Task> {
     let none: [usize; 0] = [];
     let _ = lanes_q;
     fam!("BabyBear-D1-base", "base-D1", BB, BB, 1, AluExtMulKind::Base, lanes_t, kmaxs);
-    fam!("KoalaBear-D1-base", "base-D1", KB, KB, 1, AluExtMulKind::Base, none, kmaxs);
-    fam!("Goldilocks-D1-base", "base-D1", GL, GL, 1, AluExtMulKind::Base, none, kmaxs);
+    fam!("KoalaBear-D1-base", "base-D1", KB, KB, 1, AluExtMulKind::Base, [1usize], [3usize]);
+    fam!("Goldilocks-D1-base", "base-D1", GL, GL, 1, AluExtMulKind::Base, [1usize], [3usize]);
     fam!("Goldilocks-D2-binomial", "binomial-D2", GL, BinomialExtensionField<GL, 2>, 2,
          AluExtMulKind::Binomial { w: w::<GL, 2>() }, [1usize], [3usize]);
     fam!("BabyBear-D4-binomial", "binomial-D4", BB, BinomialExtensionField<BB, 4>, 4,
          AluExtMulKind::Binomial { w: w::<BB, 4>() }, lanes_t, kmaxs);
     fam!("KoalaBear-D4-binomial", "binomial-D4", KB, BinomialExtensionField<KB, 4>, 4,
-         AluExtMulKind::Binomial { w: w::<KB, 4>() }, none, kmaxs);
+         AluExtMulKind::Binomial { w: w::<KB, 4>() }, [1usize], [3usize]);
     fam!("BabyBear-D5-binomial", "binomial-D5", BB, BinomialExtensionField<BB, 5>, 5,
-         AluExtMulKind::Binomial { w: w::<BB, 5>() }, none, kmaxs);
+         AluExtMulKind::Binomial { w: w::<BB, 5>() }, [1usize], [2usize, 3]);
     fam!("KoalaBear-D8-binomial", "binomial-D8", KB, BinomialExtensionField<KB, 8>, 8,
          AluExtMulKind::Binomial { w: w::<KB, 8>() }, [1usize], [4usize]);
     fam!("BabyBear-D8-binomial", "binomial-D8", BB, BinomialExtensionField<BB, 8>, 8,
-         AluExtMulKind::Binomial { w: w::<BB, 8>() }, none, kmaxs);
+         AluExtMulKind::Binomial { w: w::<BB, 8>() }, [1usize], [3usize]);
     fam!("KoalaBear-D5-quintic", "quintic-D5", KB, QuinticTrinomialExtensionField<KB>, 5,
          AluExtMulKind::QuinticTrinomial, lanes_t, kmaxs);
     simple::tasks(&mut t, quick);
